@@ -158,7 +158,17 @@ def sieve_window(lo, hi):
 def is_prime(n):
     """deterministic below 3.3e24 (13 prime bases); above: the 13 bases + 40 random bases
     (+ 12 for numbers of more than 1100 bits, where a modular power costs tens of ms)"""
-    return ec.is_probable_prime(n, 40 if n.bit_length() <= 1100 else 12)
+    if n.bit_length() <= 100:
+        return ec.is_probable_prime(n, 40)
+    r = _PRIME_MEMO.get(n)
+    if r is None:
+        if len(_PRIME_MEMO) > 4096:
+            _PRIME_MEMO.clear()
+        r = _PRIME_MEMO[n] = ec.is_probable_prime(n, 40 if n.bit_length() <= 1100 else 12)
+    return r
+
+
+_PRIME_MEMO = {}
 
 
 _BASE = None
@@ -474,7 +484,11 @@ def stb99_seed_verdict(S):
     if not z:
         return False, "zi"
     if not d:
-        return False, "di"
+        l, rr = S["l"], STB99_R[STB99_L.index(S["l"])]
+        d0 = S["di"][0]
+        if not (2 * d0 >= l and 8 * d0 <= 7 * l - 8 * rr):
+            return False, "di[0]-range"
+        return False, "di-chain"
     if not r:
         return False, "ri"
     return True, "ok"
